@@ -168,3 +168,40 @@ def run_main(argv):
                 h.close()
             except Exception:
                 pass
+
+
+class Slow(Exception):
+    """A single workload item exceeded its own (generous) wall-clock budget: counted, never a verdict."""
+
+
+class time_limit:
+    """with time_limit(30): ...   raises Slow; re-arms the enclosing worker watchdog afterwards."""
+
+    def __init__(self, seconds):
+        self.seconds = seconds
+
+    def __enter__(self):
+        import signal
+        import time
+
+        self.t0 = time.time()
+        self.prev_handler = signal.getsignal(signal.SIGALRM)
+        self.prev_left = signal.alarm(0)
+
+        def handler(signum, frame):
+            raise Slow()
+
+        signal.signal(signal.SIGALRM, handler)
+        signal.alarm(self.seconds)
+        return self
+
+    def __exit__(self, *a):
+        import signal
+        import time
+
+        signal.alarm(0)
+        signal.signal(signal.SIGALRM, self.prev_handler)
+        if self.prev_left:
+            left = max(1, int(self.prev_left - (time.time() - self.t0)))
+            signal.alarm(left)
+        return False
